@@ -120,6 +120,8 @@ class Units:
         self.idx = {}     # collection local -> unit of its index domain
         self.clos = {}    # let-bound closure -> units of its parameters
         self.midx = {}    # keyed collection (bit set, map) local -> unit of the keys used with contains/set/insert/...
+        self.sized = {}   # fixed-size collection local (vec![x; n], FixedBitSet::with_capacity(n)) -> (unit of n, node)
+        self.sized_seen = set()
 
     # ---- backward inference for closure parameters ------------------------------
     def infer_closure_params(self, cl, env):
@@ -175,6 +177,37 @@ class Units:
         us = self.infer_closure_params(it["a"][0], env)
         return us[0] if us else None
 
+    def size_expr(self, e):
+        """the size argument of `vec![x; n]` / `FixedBitSet::with_capacity(n)` (collections whose valid indices are
+        exactly 0..n), else None"""
+        while isinstance(e, dict) and e.get("k") in ("use",):
+            e = e["e"]
+        if isinstance(e, dict) and e.get("k") == "call" and e["f"].get("k") == "path":
+            n = e["f"].get("n", "")
+            if n.endswith("vec::from_elem") and len(e["a"]) == 2:
+                return e["a"][1]
+            if n.endswith("FixedBitSet::with_capacity") and len(e["a"]) == 1:
+                return e["a"][0]
+        return None
+
+    def check_sized(self, c, iu, node):
+        """collection `c` (fixed size n) is addressed by a variable / level number: n must be the number of
+        variables / levels"""
+        if c not in self.sized or not isinstance(iu, str) or iu not in (V, L):
+            return
+        su, sz = self.sized[c]
+        key = (c, iu)
+        if key in self.sized_seen:
+            return
+        self.sized_seen.add(key)
+        szr = sz
+        while isinstance(szr, dict) and szr.get("k") in ("cast", "use"):
+            szr = szr["e"]
+        if not isinstance(su, str) and isinstance(szr, dict) and szr.get("k") == "path" and szr.get("res") == "local" \
+                and szr["n"] in self.params:
+            return      # the size is a parameter of this function: decided at the callers' level, not here
+        self.report("sized", node.get("ln"), (c, iu, su if isinstance(su, str) else None))
+
     def sig_of(self, node):
         did = H.callee_did(node)
         if did and did in self.F.sigs:
@@ -187,6 +220,7 @@ class Units:
         if not h:
             return
         env = {}
+        self.params = {p["n"] for p in h["params"] if p.get("k") == "bind"}
         if sig:
             for p, t in zip(h["params"], sig["ptys"]):
                 if p.get("k") == "bind":
@@ -339,6 +373,9 @@ class Units:
                             d = self.index_domain(init, env2)
                             if d:
                                 self.idx[s["p"]["n"]] = d
+                            sz = self.size_expr(init)
+                            if sz is not None:
+                                self.sized[s["p"]["n"]] = (self.ex(sz, env2), sz)
                     u = self.ex(s["e"], env2) if "e" in s else None
                     du = unit_of_hty(s.get("hty"))
                     if du and u:
@@ -406,6 +443,8 @@ class Units:
             c = H.root_local(e["e"])
             if c in self.idx and iu:
                 self.mix("index into `%s` (filled per %s)" % (c, self.idx[c]), self.idx[c], iu, e)
+            if c:
+                self.check_sized(c, iu, e)
             if isinstance(iu, str) and iu.endswith("~"):
                 return "@" + iu[:-1]
             return None
@@ -529,6 +568,7 @@ class Units:
                 if prev and isinstance(prev, str):
                     self.mix("key of `%s` (elsewhere addressed by %s)" % (c, prev), prev, plain[0], e)
                 self.midx.setdefault(c, plain[0])
+                self.check_sized(c, plain[0], e)
         if sig:
             self.args_vs_sig(e, sig, plain, 1)
             u = unit_of_hty(sig["rty"])
@@ -542,8 +582,10 @@ class Units:
             return ru
         if name == "map" and units and isinstance(units[0], tuple):
             return units[0][1]
-        if name in ("filter", "take_while", "skip_while", "inspect", "rev", "enumerate"):
-            return ru if name != "enumerate" else None
+        if name in ("filter", "take_while", "skip_while", "inspect", "rev"):
+            return ru
+        if name == "enumerate":
+            return ("tup", [None, ru]) if isinstance(ru, str) else None
         if name == "len" or name == "count":
             return None
         return None
@@ -576,7 +618,19 @@ def run(ctx, F, rule="E-UNITS", crates=("oxidd_core", "oxidd_rules_bdd", "oxidd_
         nsites += u.nchecked
         nice = F.nice(fid)
         seen = {}
-        for what, ln, (a, b) in hits:
+        for what, ln, us in hits:
+            if what == "sized":
+                c, iu, su = us
+                ok = isinstance(su, str) and su.endswith("#")     # num_vars() == num_levels() at all times
+                ctx.ob(rule + ".sized", "%s.sized:%s:%s" % (rule, nice, c), ok,
+                       "%s (%s, line %s): `%s` is addressed by a %s and %s" %
+                       (nice, F.where(fid), ln, c, iu,
+                        "sized by the manager's number of variables / levels" if ok else
+                        "its size is %s: a valid %s of the manager can lie outside it" %
+                        ("a %s count" % su.rstrip("#") if su else "not the manager's number of %s" %
+                         ("levels" if iu == L else "variables"), iu)))
+                continue
+            a, b = us
             base = "%s:%s:%s" % (rule, nice, re.sub(r" \(declared.*\)", "", what))
             seen[base] = seen.get(base, 0) + 1
             key = base if seen[base] == 1 else "%s#%d" % (base, seen[base])
